@@ -29,6 +29,7 @@ type Config struct {
 	Trace            bool
 	Verbose          bool
 	MapOrderReversed bool
+	MapRotate        bool // fork over the rotation of every map iteration (first key is arbitrary)
 	NoMerge          bool
 	ReachTwin        bool // vacuity twin: every vp.Assert is replaced by assert(false)
 	Bounds           map[string]int
